@@ -1371,6 +1371,17 @@ pub fn generate(op: &str, rng: &mut Rng, budget: u64, f: &mut dyn FnMut(Vec<Stri
                     }
                 }
             }
+            // special places of the dodecahedron: face centres, vertices, edge midpoints - exactly and a hair off them
+            for (lon, lat) in crate::geo::special_lonlats() {
+                for (dx, dy) in [(0.0, 0.0), (1e-9, 0.0), (0.0, -1e-9), (-1e-6, 1e-6)] {
+                    for r in [0, 1, 2, 7, 20, 29] {
+                        let la = (lat + dy as f64).max(-90.0).min(90.0);
+                        if !f(vec![format!("{:e}", lon + dx), format!("{:e}", la), r.to_string()]) {
+                            return;
+                        }
+                    }
+                }
+            }
             for _ in 0..budget {
                 let lon = (rng.below(7_200_000) as f64) / 10_000.0 - 360.0;
                 let lat = (rng.below(1_800_001) as f64) / 10_000.0 - 90.0;
